@@ -150,6 +150,7 @@ func c13History(c *vc.Ctx, idx int) {
 		}
 		c13After(h)
 	}
+	h.closing(func() { c13After(h) })
 	c.Sample(map[string]any{"max_validators": K, "genesis_powers": powers, "blocks": h.ch.Height, "validators_at_end": len(h.post.Locking.Validators), "last_ops": lastN(h.opsLog, 4)})
 }
 
